@@ -1,7 +1,7 @@
 """C07 - backend and build-configuration independence of all SIMD-backed types.
 
 (a) R-CFG: truth-table enumeration of the cfg predicates in lib.rs / f32.rs / bool.rs / swizzles.rs: every feasible assignment selects exactly
-one backend, the same in all files.  (b) R-WHO: fused multiply-add symbols are reachable only from the public mul_add methods unless fast-math
+one backend, the same in all files.  (b) R-WHO: build-dependent fused multiply-add symbols (x86 FMA intrinsics, wasm relaxed madd) are reachable only from the public mul_add methods unless fast-math
 (positive control: the fast-math+fma build does contain the fused op).  (c) R-SIB exact: every function has the identical canonical result term
 with and without +fma/+avx2/+sse4.1 (0 bits).  (d) R-SIB real-field: every public function of the eight SIMD-backed types computes the same real
 function (same guards) as the scalar-math build on every SIMD backend.  (e) R-EFFSEQ: Debug/Display emit the same argument sequence on all backends."""
@@ -26,6 +26,7 @@ LEVEL_NOTE = 'Decides structural equality across builds, not the magnitude of re
 SIMD_TYPES = ('Vec3A', 'Vec4', 'Quat', 'Mat2', 'Mat3A', 'Mat4', 'Affine2', 'Affine3A', 'BVec3A', 'BVec4A')
 BACKENDS = ('scalar', 'sse2', 'neon', 'wasm32', 'coresimd')
 FUSED = re.compile(r'(_mm_fn?m(add|sub)_p[sd]|::mul_add$|libm::fmaf?$|vfm[as]q?_(f32|f64|n_f32)|simd_fma$|intrinsics::fmaf(32|64)$|intrinsics::fmuladdf(32|64)$|StdFloat.*mul_add|f32x4_relaxed_madd)')
+CONDITIONAL_FUSED = re.compile(r'(_mm_fn?m(add|sub)_p[sd]|f32x4_relaxed_madd)')
 # opaque-algorithm instances whose cross-backend comparison is UNDECIDED by design (SSE2 integer round-trip rounding; see C01)
 OPAQUE_FNS = {'floor', 'ceil', 'trunc', 'round', 'fract', 'fract_gl', 'rem_euclid', 'div_euclid'}
 
@@ -237,18 +238,16 @@ def check_fused(ctx, cfg, F, expect_fused_in_mul_add_kernel):
     for caller in sorted(fused_callers):
         base = caller.rsplit('::', 1)[-1]
         ok = base == 'mul_add' or (expect_fused_in_mul_add_kernel and base in ('m128_mul_add', 'm128_neg_mul_sub'))
+        # only fused symbols whose presence depends on the build can make results build-dependent: the x86 FMA intrinsics (compiled under
+        # cfg(target_feature = "fma") only) and wasm's relaxed madd (fused or not at the engine's discretion).  f32::mul_add / libm fma / NEON
+        # vfma / the public mul_add methods are fused on every build, so using them elsewhere changes nothing between builds
+        cond = [c for c in cg[caller] if FUSED.search(c) and CONDITIONAL_FUSED.search(c)]
         if ok:
             ctx.holds('R-WHO', cfg, caller, 'fused op inside mul_add')
+        elif not cond:
+            ctx.holds('R-WHO', cfg, caller, 'unconditionally fused operation (the same on every build)')
         else:
             ctx.violation('R-WHO', cfg, caller, {'problem': 'fused multiply-add reachable outside the public mul_add methods (results would depend on the build)', 'caller': caller})
-    # who calls the mul_add methods themselves?
-    for caller, callees in cg.items():
-        if caller not in glam_fns:
-            continue
-        base = caller.rsplit('::', 1)[-1]
-        for c in callees:
-            if c in glam_fns and c.rsplit('::', 1)[-1] == 'mul_add' and base != 'mul_add':
-                ctx.violation('R-WHO', cfg, caller, {'problem': 'calls %s: a fused operation on a non-mul_add path' % c})
     ctx.count('fused_call_sites:' + cfg, n)
     return kernel
 
@@ -281,11 +280,39 @@ def canon_c07(t):
             d = sb.args[0]
             sz = 4
             r = tm.f2('fmul', other, tm.ite(tm.f2('flt', d, tm.fconst(0.0, sz)), tm.fconst(-1.0, sz), tm.fconst(1.0, sz)))
+        elif x.op == 'ite':
+            # "discrete outcomes agree unless the deciding quantity lies within the slack of its threshold": a tie exactly at the threshold may
+            # go either way, so a <= b and a < b select the same branch for this comparison
+            c2 = strict_cond(args[0])
+            th, el = args[1], args[2]
+            if c2.op == 'flt' and tm.is_const(c2.args[0]) and not tm.is_const(c2.args[1]):
+                # k < x ? X : Y  and  x < k ? Y : X  differ only at x == k: thresholds are oriented with the constant on the right
+                c2 = tm.f2('flt', c2.args[1], c2.args[0])
+                th, el = el, th
+            if c2 is not args[0]:
+                r = tm.ite(c2, th, el)
         if r is None:
             r = tm.rebuild(x.op, args) if any(p is not q for p, q in zip(args, x.args)) else x
         memo[x.id] = r
         return r
     return go(t)
+
+
+def strict_cond(c):
+    """a float condition with every non-strict comparison made strict (ties dropped): fle(a, b) and not(flt(b, a)) become flt(a, b)"""
+    if not isinstance(c, tm.T):
+        return c
+    if c.op == 'fle' and len(c.args) == 2:
+        return tm.f2('flt', c.args[0], c.args[1])
+    if c.op == 'not' and c.args[0].op == 'flt':
+        return tm.f2('flt', c.args[0].args[1], c.args[0].args[0])
+    if c.op == 'not' and c.args[0].op == 'fle':
+        return tm.f2('flt', c.args[0].args[1], c.args[0].args[0])
+    if c.op in ('and', 'or'):
+        a2 = [strict_cond(a) for a in c.args]
+        if any(p is not q for p, q in zip(a2, c.args)):
+            return tm.rebuild(c.op, a2)
+    return c
 
 
 def value_cells(F, v, tyid):
